@@ -1136,8 +1136,19 @@ def bisect_depth(plain_drv, workdir, nm, lo, hi, timeout=30):
     return hi
 
 
-def replay_case(ctx, drv, workdir):
+def replay_case(ctx, drv, workdir, pdrv=None):
     r = json.load(open(ctx.replay))
+    cs = r.get("case") or {}
+    if isinstance(cs, dict) and "construct" in cs and pdrv is not None:
+        # a generated deep chain: rebuild it and run it on the non-sanitized build
+        nm, n = cs["construct"], int(cs["elements"])
+        c = Case("replay", "nest:" + nm, dict(nesting_cases([n]))[nm])
+        died, pobs = confirm_on_plain(pdrv, workdir, [c], timeout=60)
+        ctx.coverage["replay"] = {"file": ctx.replay, "construct": nm, "elements": n, "died": died.get("replay")}
+        ctx.count(evaluations=1, nontrivial=1)
+        if "replay" in died:
+            ctx.violation(r.get("key", "stack-overflow:chain:%s" % nm), r.get("what", "stack overflow"), {"case": cs, "observed": died["replay"]})
+        return
     inp = r.get("input", {})
     data = base64.b64decode(inp["base64"]) if "base64" in inp and not inp["base64"].startswith("(") else inp.get("text", "").encode("latin-1")
     path = r.get("never_path")
@@ -1181,7 +1192,7 @@ def run(ctx):
     ctx.coverage["timing_s"] = {"gen+coq": round(t1 - t0, 1), "builds": round(time.time() - t1, 1)}
     try:
         if getattr(ctx, "replay", None):
-            replay_case(ctx, drv, workdir)
+            replay_case(ctx, drv, workdir, pdrv)
             return
         _run(ctx, drv, pdrv, workdir, t0)
     finally:
@@ -1217,6 +1228,7 @@ def _run(ctx, drv, pdrv, workdir, t0):
     findings = {}          # key -> list of (case, obs, what)
     asan_stack = []
     harness = []
+    sampled = set()
     seen_inputs = set()
     nontrivial = 0
     memexh = 0
@@ -1240,7 +1252,9 @@ def _run(ctx, drv, pdrv, workdir, t0):
             findings.setdefault(key, []).append((c, o, what))
         elif k == "harness":
             harness.append(c.id)
-        if k in ("ok", "diagnosed") and len(ctx.coverage["samples"]) < 5 and (len(c.data) < 200) and c.cls.startswith(("generated", "mutate", "raw")):
+        if k in ("ok", "diagnosed") and len(c.data) < 200 and c.cls.startswith(("generated", "mutate", "raw", "truncate", "use")) \
+                and (cls, k) not in sampled and len(sampled) < 6:
+            sampled.add((cls, k))
             ctx.sample({"class": c.cls, "input": show_input(c.data, 200), "ret": o.ret, "classifier": k,
                         "diagnostics_first_line": o.diag.split(b"\n")[0].decode("latin-1")[:120]})
     ctx.count(evaluations=len(cases), nontrivial=nontrivial)
